@@ -60,3 +60,8 @@ claim("C07", "DESIGN.md 2.3, 5 C07",
       "Sequential: ALL 65536 start values of NewFixedSequencer driven through the first wrap (+3 calls; three wraps in thorough) with successor and RollOverCount checked, and ALL 32767 answers of the random generator for NewRandomSequencer. Concurrent: the working tree's sequencer.go is rewritten at check time (sync -> controlled shim, yield before every statement, access report for every field) and EVERY interleaving of 2- and 3-thread harnesses (every assignment of 1-3 operation lists over {Next, RollOverCount}, start values around the wrap) is executed under the cooperative scheduler, iterated over preemption bounds 0,1,2 and then unbounded; every complete execution is checked for deadlock, linearizability against the counter model (porcupine), no duplicate / no gap, and by a vector-clock happens-before race oracle over all reported accesses.",
       "Interleaving at statement granularity plus the happens-before oracle stand for the Go memory model; cross-checked by a free-running go test -race pass of the same bodies with the real sync package (supplementary, decides nothing alone). More than 3 threads / 3 operations per thread is outside the bound.",
       "stateless model checking of the real code under a controlled scheduler (all interleavings, iterative preemption bounding) + linearizability checking + happens-before race oracle")
+
+claim("C10", "DESIGN.md 5 C10",
+      "Payloader side: every sequence of 1-3 (thorough: 4) NAL units (type, NRI, size relative to the MTU, 3/4-byte start code) over 9 MTUs x StapA on/off x AVC on/off x every position of the call boundary is packetized by the real H264Payloader; the payloads are parsed and reassembled by an independent RFC 6184 reference (single / STAP-A / FU-A with S,E,NRI,type, >= 2 fragments, <= MTU), compared with the input units, IsPartitionHead is checked on every payload, and the payloads are fed to one H264Packet whose concatenated output must equal the Annex-B/AVC framing of the units. Decoder side: every arrangement of up to 3 groups (single, STAP-A of 1-3 units, FU-A train with every set of 1-3 split points) from the reference encoder is decoded by H264Packet.",
+      "Two listed known findings (parameter-set hold-back anomalies, STAP-A over MTU dropped) are matched by an exact model of the hold-back state machine; any other difference is reported. Alphabets in the evidence assumptions.",
+      "bounded exhaustive enumeration of unit sequences and payload arrangements against an independent RFC 6184 reference packetizer/reassembler (explicit choice-tree DFS on the real code)")
